@@ -108,7 +108,18 @@ def mutate(draw, doc, spec, A, parse_value):
         xs = [n for n, _ in nodes if isinstance(n, cls)]
         return draw(st.sampled_from(xs)) if xs else None
 
-    k = draw(st.sampled_from(list(range(27)) + [26] * 5))
+    k = draw(st.sampled_from(list(range(28)) + [26] * 5))
+    if k == 27:
+        # the schema-level meta fields selected somewhere: they exist on the query root type only
+        ss = pick(A.SelectionSet)
+        if ss is None:
+            return None
+        text = draw(st.sampled_from(["{ __schema { queryType { name } } }", "{ __type(name: \"%s\") { name kind } }" % draw(st.sampled_from(sorted(spec["types"]))),
+                                     "{ s: __schema { types { name } } }", "{ __type(name: \"Nope\") { name } }"]))
+        from py_gql.lang import parse as _parse
+        sel = _parse(text, no_location=True).definitions[0].selection_set.selections[0]
+        ss.selections.insert(draw(st.integers(0, len(ss.selections))), sel)
+        return "meta-field-somewhere"
     if k == 26:
         # one selection text under two parents: `... on X { key: fx { shared } } ... on Y { key: fy { shared } }` where `shared`
         # is a field both result types have, each with a type of its own (as `id`, `name`, `value` are in real schemas). The two
